@@ -312,6 +312,10 @@ def check_handles(ns, case, handles):
         exp, rl, rr = (None, None, None)
         if case["call"] in CREATE_CALLS:
             exp, rl, rr = spec_request(ns, case)
+        elif case["call"] == "recv_measure":
+            kw = case["kw"]     # the bases the receiver stated (default Z/Z)
+            rl = SPEC_BASIS_ROT[kw["basis_local"]] if kw.get("basis_local") else tuple(kw.get("rotations_local", (0, 0, 0)))
+            rr = SPEC_BASIS_ROT[kw["basis_remote"]] if kw.get("basis_remote") else tuple(kw.get("rotations_remote", (0, 0, 0)))
         for i, d in enumerate(handles["meas"][:n]):
             want = dict(raw_measurement_outcome=rs[i]["measurement_outcome"], remote_node_id=rs[i]["remote_node_id"],
                         generation_duration=rs[i]["goodness"], raw_bell_state=rs[i]["bell_state"],
